@@ -354,6 +354,44 @@ func c16Run(s *c16Scn, enc *json.Encoder, mu *sync.Mutex) verdict {
 		}
 	}
 
+	t, err := c16Transport(s, port, keyPath)
+	if err != nil {
+		fail(&v, "C16:"+s.Transport+":open", "%s: %v", name, err)
+
+		return v
+	}
+
+	// every third session is the second one of its transport object: an earlier one was opened and closed again (what the far
+	// end of that one received stays there; the session under observation starts from nothing)
+	if s.ID%3 == 0 && !ffFirst && !s.Early && !s.Hung {
+		var e0 error
+
+		fin0, pan0 := withWatchdog(10*time.Second, func() { e0 = t.Open() })
+		if !fin0 || pan0 != nil || e0 != nil {
+			v.OK, v.Sig, v.Detail = false, "TOOL", fmt.Sprintf("%s: the earlier session: returned=%v panic=%v err=%v", name, fin0, pan0, e0)
+
+			return v
+		}
+
+		select {
+		case far0 := <-sessions:
+			_ = t.Write([]byte("left over from the earlier session\n"))
+			_, _ = far0.Write([]byte("left over from the earlier session\n"))
+			time.Sleep(5 * time.Millisecond)
+			_, _ = withWatchdog(4*time.Second, func() { _ = t.Close(true) })
+			_ = far0.Close()
+		case <-time.After(8 * time.Second):
+			v.OK, v.Sig, v.Detail = false, "TOOL", name+": the peer never saw the earlier session come up"
+
+			return v
+		}
+
+		time.Sleep(10 * time.Millisecond)
+
+		name += "/second-session"
+		v.Variant = name
+	}
+
 	// the far end: with `early` it starts talking as soon as the session exists (for telnet: while Open is still negotiating)
 	farCh := make(chan io.ReadWriteCloser, 1)
 	s2cDone := make(chan struct{})
@@ -374,11 +412,7 @@ func c16Run(s *c16Scn, enc *json.Encoder, mu *sync.Mutex) verdict {
 		}
 	}()
 
-	t, err := c16Transport(s, port, keyPath)
-	if err == nil {
-		err = t.Open()
-	}
-
+	err = t.Open()
 	if err != nil {
 		fail(&v, "C16:"+s.Transport+":open", "%s: %v", name, err)
 
